@@ -434,7 +434,10 @@ impl Store {
         batch.remove(&self.idx_context, idx_context_key_from_frame(&frame));
 
         // If this is a context frame, remove it from the contexts set
-        if frame.topic == "xs.context" {
+        if frame.topic == "xs.context"
+            && frame.context_id == ZERO_CONTEXT
+            && frame.id != ZERO_CONTEXT
+        {
             self.contexts.write().unwrap().remove(&frame.id);
         }
 
